@@ -12,6 +12,7 @@ Model: `Nebula.Fw` (Model/Firewall.lean, Model/Conntrack.lean) — the nested ta
 firewall configuration, certificate, CA pool and packet.
 -/
 import Nebula.Lemmas.FwConn
+import Nebula.Lemmas.FwPortLoop
 
 namespace Nebula.Props.C16
 open Nebula.Net Nebula.Fw Nebula.Spec.Fw Nebula.Lemmas.Fw
@@ -31,6 +32,15 @@ theorem table_eq_spec_incremental (fw : Fw) (rules : List Rule) (p : Packet) (in
     ((fw.addRules rules).table incoming).matches p incoming pr
       = ((fw.table incoming).matches p incoming pr || allow fw.cfg rules p incoming pr) :=
   addRules_table fw rules p incoming pr
+
+/-- The port loop of `firewallPort.addRule` (`for i := startPort; i <= endPort; i++` over the Go map, creating
+missing entries) is the pointwise range update the tables above are built with: for every map content and every
+`startPort ≤ endPort`, reading the map after the loop gives `FPort.addRule`. -/
+theorem port_loop_is_pointwise (cfg : Cfg) (m : FPortMap) (startPort endPort : Int) (groups : List String)
+    (host : String) (cidr localCidr : CidrSel) (caName caSha : String) (hle : startPort ≤ endPort) :
+    (m.addRule cfg startPort endPort groups host cidr localCidr caName caSha).toFPort
+      = m.toFPort.addRule cfg startPort endPort groups host cidr localCidr caName caSha :=
+  portMap_addRule_eq cfg m startPort endPort groups host cidr localCidr caName caSha hle
 
 /-- A rule that `AddRule` refuses (unknown protocol, start port above end port) changes nothing, and those are
 exactly the rules the specification calls invalid. -/
